@@ -265,7 +265,22 @@ func (v *simView) Gen(rng *Rng, i int) string {
 				kind = "ok"
 			}
 		}
+		if allowFaults && !strings.HasPrefix(kind, "big") && rng.Chance(1, 5) {
+			// only the first part of the reply arrives now; the rest with a later `f` / `s` / `m` on this
+			// connection - or never, if the connection is lost first
+			g.emit(fmt.Sprintf("h %d %d %s", j, rng.Intn(1<<20), kind))
+			return
+		}
 		g.emit(fmt.Sprintf("s %d %s", j, kind))
+	}
+	halfBackends := func() []int {
+		var res []int
+		for j, b := range run.backends {
+			if b.half != nil && !b.closed {
+				res = append(res, j)
+			}
+		}
+		return res
 	}
 	if rng.Chance(1, 120) {
 		// a long pipeline behind one slow request: more replies become deliverable at once than one writev takes
@@ -322,7 +337,9 @@ func (v *simView) Gen(rng *Rng, i int) string {
 		case x < 55:
 			g.emit("T")
 		case x < 84:
-			if pb := pendingBackends(); len(pb) > 0 {
+			if hb := halfBackends(); len(hb) > 0 && rng.Chance(2, 3) {
+				g.emit(fmt.Sprintf("f %d", hb[rng.Intn(len(hb))]))
+			} else if pb := pendingBackends(); len(pb) > 0 {
 				answer(pb[rng.Intn(len(pb))], true)
 			} else {
 				g.emit("T")
